@@ -70,7 +70,7 @@ def check(tier, seed):
         share_programs_with_nonconstant_condition=round(st["progs_with_nonconst_cond"] / max(1, st["programs"]), 3),
         share_programs_with_ranges_or_slices=round(st["progs_with_ranges_or_slices"] / max(1, st["programs"]), 3),
         rejected_by_real_compiler=st["rejected"] + st2["rejected"])
-    rep.assumptions = ["modelled core only (see DESIGN.add.md): no array arithmetic, FFI, math builtins other than sqrt; ranges, slices and the pipe operator are in, modules by linking (docs/DESIGN.add.D3.md)",
+    rep.assumptions = ["modelled core only (see DESIGN.add.md): no FFI, math builtins other than sqrt; ranges, slices, the pipe operator and array arithmetic are in, modules by linking (docs/DESIGN.add.D3.md)",
                        "beyond the evaluator's own laws nothing here is a proof about emit.c/vmexec.c: it is differential testing, bounded by the generator"]
     return rep.finish()
 
